@@ -18,6 +18,11 @@ Decides from the source:
   V4  azimuth handling and recombination of both lens theories agree with the
       polarisation direction (rotation / mirror rules shared with C05), and the
       field phase factors are exp(i k z) / incident and -exp(i k z).
+  V5  the Lens integrands are the inner theory's 2x2 amplitude matrix A
+      (as returned: A[i][j] = S[..., i, j]) applied to the unit vector
+      e = (cos, sin) of the azimuth relative to the polarisation and projected
+      on e and on e_perp = (sin, -cos):  l = P e.(A e),  r = P e_perp.(A e) --
+      the layout every theory's raw_scat_matrs uses for S.E;
 Not decided: numerical convergence of Lens(Mie) to MieLens, interpolation on /
 off agreement.
 """
@@ -68,6 +73,8 @@ def run(check, prog):
     c05.calculator_parity(check, prog, tc)
     c05.phi_quadrature(check, prog)
     phases(check, prog, canon)
+    amplitude_matrix(check, prog)
+    lens_wiring(check, prog)
 
 
 def numexpr_agreement(check, prog, canon):
@@ -348,3 +355,193 @@ def phases(check, prog, canon):
     check.require(ok, 'V4-field-phase', 'Lens.raw_fields phase',
                   'phase evaluated at the particle z of the positions',
                   prog.loc(q, prog.func(q)))
+
+
+def amplitude_matrix(check, prog):
+    q = LENS + '._compute_integrand'
+    fd = prog.func(q)
+    loc = prog.loc(q, fd)
+    me = sym(fd.args.args[0].arg)
+
+    def decide(t):
+        if t == ('attr', me, 'use_numexpr'):
+            return False
+        return None
+    it = Interp(prog, max_depth=2, decide=decide, opaque=[LENS + '._integrand_prefactor'])
+    res = it.analyze(q)
+    v = res.ret
+    ok = v[0] == 'tuple' and len(v[1]) == 2
+    if not ok:
+        check.bad('V5-amplitude-matrix', 'Lens._compute_integrand',
+                  'does not return (integrand_l, integrand_r): %s' % show(v)[:120], loc)
+        return
+    ent = {}
+    for x in subterms(v):
+        if x[0] == 'idx' and x[2][0] == 'tuple' and len(x[2][1]) == 4 and \
+                x[2][1][0][0] == 'slice' and x[2][1][1][0] == 'slice' and \
+                x[2][1][2][0] == 'num' and x[2][1][3][0] == 'num':
+            ent[(int(x[2][1][2][1]), int(x[2][1][3][1]))] = x
+    wrapped = {}
+    for x in subterms(v):
+        if x[0] == 'call' and isinstance(x[1], tuple) and x[1][0] == 'attr' and \
+                x[1][2] == 'reshape' and x[1][1] in ent.values():
+            for k, e in ent.items():
+                if e == x[1][1]:
+                    wrapped[k] = x
+    P = [x for x in subterms(v) if x[0] == 'call' and isinstance(x[1], tuple) and
+         x[1][0] == 'attr' and x[1][2] == '_integrand_prefactor']
+    cs = [x for x in subterms(v) if x[0] == 'call' and x[1] == 'numpy.cos']
+    sn = [x for x in subterms(v) if x[0] == 'call' and x[1] == 'numpy.sin']
+    # one azimuth, however it is spelled: unify the spellings before comparing
+    cz = Canon(trig=False)
+    if cs and sn and all(len(x[2]) == 1 and cz.equal(x[2][0], cs[0][2][0])
+                         for x in cs + sn):
+        rep = {x: cs[0] for x in cs[1:]}
+        rep.update({x: intern(('call', 'numpy.sin', cs[0][2], ())) for x in sn})
+        v = c05.subst(v, rep)
+        sn = [intern(('call', 'numpy.sin', cs[0][2], ()))]
+        cs = cs[:1]
+    if set(wrapped) != {(0, 0), (0, 1), (1, 0), (1, 1)} or len(P) != 1 or \
+            len(cs) != 1 or len(sn) != 1 or cs[0][2] != sn[0][2]:
+        check.bad('V5-amplitude-matrix', 'Lens._compute_integrand',
+                  'cannot identify the four matrix entries / the prefactor / one '
+                  'azimuth: entries %s' % sorted(wrapped), loc)
+        return
+    bases = {e[1] for e in ent.values()}
+    env = {'P': P[0], 'c': cs[0], 's': sn[0]}
+    for (i, j), x in wrapped.items():
+        env['A%d%d' % (i, j)] = x
+    wl = expr_term(prog, 'P * (c * (A00 * c + A01 * s) + s * (A10 * c + A11 * s))', env)
+    wr = expr_term(prog, 'P * (s * (A00 * c + A01 * s) - c * (A10 * c + A11 * s))', env)
+    c0 = Canon(trig=False)
+    okl, okr = c0.equal(v[1][0], wl), c0.equal(v[1][1], wr)
+    check.require(okl and okr and len(bases) == 1, 'V5-amplitude-matrix',
+                  'Lens._compute_integrand',
+                  'l = P e.(A e), r = P e_perp.(A e) with A the inner theory\'s 2x2 '
+                  'matrices, e = (cos, sin), e_perp = (sin, -cos)', loc,
+                  fail_detail='l %s the oracle, r %s the oracle: a matrix entry is read '
+                  'from the wrong slot or an integrand mixes the components wrongly' % (
+                      'equals' if okl else 'differs from',
+                      'equals' if okr else 'differs from'))
+    # the azimuth is measured from the polarisation direction
+    ang = cs[0][2][0]
+    from .common import as_difference
+    df = as_difference(ang)
+    okd = df is not None and df[0] == ('attr', me, '_phi_pts') and \
+        df[1][0] == 'sym'
+    check.require(okd, 'V5-amplitude-matrix', 'Lens integrand azimuth',
+                  'azimuth = quadrature azimuth - polarisation angle', loc,
+                  fail_detail='angle is %s' % show(ang)[:80])
+
+
+def lens_wiring(check, prog):
+    """Lens.raw_fields: every internal hand-off puts each value in the slot the
+    callee declares (parallel integral -> parallel component, ...)."""
+    def bind(q, args, kwargs):
+        fdc = prog.func(q)
+        nm = [a.arg for a in fdc.args.args][1:]
+        b = dict(zip(nm, args))
+        b.update(dict(kwargs))
+        return b
+    q = LENS + '.raw_fields'
+    fd = prog.func(q)
+    loc = prog.loc(q, fd)
+    P = {a.arg: sym(a.arg) for a in fd.args.args}
+    helpers = ['_compute_integral', '_transform_integral_from_lr_to_xyz',
+               '_compute_field_phase']
+    it = Interp(prog, max_depth=1, opaque=[LENS + '.' + h for h in helpers])
+    res = it.analyze(q)
+    pol = P['illum_polarization']
+    ang = intern(('call', 'numpy.arctan2', (('idx', ('attr', pol, 'values'), num(1)),
+                                            ('idx', ('attr', pol, 'values'), num(0))), ()))
+    ci = [c for c in it.calls if c['name'] == LENS + '._compute_integral']
+    tr = [c for c in it.calls if c['name'] == LENS + '._transform_integral_from_lr_to_xyz']
+    ph = [c for c in it.calls if c['name'] == LENS + '._compute_field_phase']
+    ok = len(ci) == 1 and len(tr) == 1 and len(ph) == 1
+    detail = ''
+    if ok:
+        b = bind(LENS + '._compute_integral', ci[0]['args'][1:], ci[0]['kwargs'])
+        ok = b == {'positions': P['positions'], 'scatterer': P['scatterer'],
+                   'medium_wavevec': P['medium_wavevec'],
+                   'medium_index': P['medium_index'], 'pol_angle': ang}
+        detail = '_compute_integral(%s)' % ', '.join('%s=%s' % (k, show(x)[:30])
+                                                     for k, x in b.items())
+        if ok:
+            integ = intern(('call', ('attr', P['self'], '_compute_integral'),
+                            tuple(ci[0]['args'][1:]), ()))
+            b2 = bind(LENS + '._transform_integral_from_lr_to_xyz', tr[0]['args'][1:],
+                      tr[0]['kwargs'])
+            ok = b2 == {'prll_component': intern(('idx', integ, num(0))),
+                        'perp_component': intern(('idx', integ, num(1))),
+                        'pol_angle': ang}
+            detail = '_transform_integral_from_lr_to_xyz(%s)' % ', '.join(
+                '%s=%s' % (k, show(x)[:60]) for k, x in b2.items())
+        if ok:
+            b3 = bind(LENS + '._compute_field_phase', ph[0]['args'][1:], ph[0]['kwargs'])
+            ok = b3 == {'particle_kz': intern(('idx', P['positions'],
+                                               ('tuple', (num(2), num(0)))))}
+            detail = '_compute_field_phase(%s)' % show(b3.get('particle_kz'))[:60]
+    check.require(ok, 'V6-lens-wiring', 'Lens.raw_fields',
+                  'polarisation angle = arctan2(p_y, p_x); the parallel / perpendicular '
+                  'integrals go to the parallel / perpendicular slots of the '
+                  'recombination; the phase uses the particle\'s kz', loc,
+                  fail_detail=detail)
+    q = LENS + '._compute_integral'
+    fd = prog.func(q)
+    it = Interp(prog, max_depth=1, opaque=[LENS + '._compute_integrand'])
+    res = it.analyze(q)
+    v = res.ret
+    ig = [c for c in it.calls if c['name'] == LENS + '._compute_integrand']
+    ok = len(ig) == 1 and v[0] == 'tuple' and len(v[1]) == 2
+    if ok:
+        P2 = [sym(a.arg) for a in fd.args.args]
+        ok = tuple(ig[0]['args']) == tuple(P2)
+        call = intern(('call', ('attr', P2[0], '_compute_integrand'), tuple(P2[1:]), ()))
+        for i in (0, 1):
+            x = v[1][i]
+            ok = ok and x[0] == 'call' and x[1] == 'numpy.sum' and \
+                x[2] == (('idx', call, num(i)),) and \
+                kw(x, 'axis') == ('tuple', (num(0), num(1)))
+    check.require(ok, 'V6-lens-wiring', 'Lens._compute_integral',
+                  'each integrand is summed over the two quadrature axes; parallel '
+                  'first, perpendicular second', prog.loc(q, fd),
+                  fail_detail='returns %s' % show(v)[:160])
+    q = LENS + '._compute_integrand'
+    fd = prog.func(q)
+    inner = ['_integrand_prefactor', '_calc_scattering_matrix', '_integrand_prll',
+             '_integrand_perp']
+    it = Interp(prog, max_depth=1, opaque=[LENS + '.' + h for h in inner])
+    res = it.analyze(q)
+    P3 = {a.arg: sym(a.arg) for a in fd.args.args}
+    cm = [c for c in it.calls if c['name'] == LENS + '._calc_scattering_matrix']
+    pf = [c for c in it.calls if c['name'] == LENS + '._integrand_prefactor']
+    ok = len(cm) == 1 and len(pf) == 1
+    if ok:
+        b = bind(LENS + '._calc_scattering_matrix', cm[0]['args'][1:], cm[0]['kwargs'])
+        ok = b == {'scatterer': P3['scatterer'], 'medium_wavevec': P3['medium_wavevec'],
+                   'medium_index': P3['medium_index']}
+        bp = bind(LENS + '._integrand_prefactor', pf[0]['args'][1:], pf[0]['kwargs'])
+        pos = P3['positions']
+        for i, nme in enumerate(('krho_p', 'phi_p', 'kz_p')):
+            x = bp.get(nme)
+            ok = ok and x is not None and any(
+                y == ('idx', pos, num(i)) for y in subterms(x)) and not any(
+                y[0] == 'idx' and y[1] == pos and y[2] != num(i) and y[2] != num(2)
+                for y in subterms(x))
+    for m in ('_integrand_prll', '_integrand_perp'):
+        cc = [c for c in it.calls if c['name'] == LENS + '.' + m]
+        ok = ok and len(cc) == 1
+        if ok:
+            a = cc[0]['args'][1:]
+            ok = len(a) >= 2 and a[0][0] == 'call' and \
+                a[0][1] == ('attr', P3['self'], '_integrand_prefactor') and \
+                a[1] == P3['pol_angle'] and len(a) in (3, 6)
+            if ok and len(a) == 6:
+                ok = all(a[2 + k] == ('idx', ('call', ('attr', P3['self'],
+                                                       '_calc_scattering_matrix'),
+                                              tuple(cm[0]['args'][1:]), ()), num(k))
+                         for k in range(4))
+    check.require(ok, 'V6-lens-wiring', 'Lens._compute_integrand',
+                  'prefactor(krho, phi, kz of the positions); scattering matrix of '
+                  '(scatterer, wavevector, index); both integrands get (prefactor, '
+                  'polarisation angle, S1..S4 in order)', prog.loc(q, fd))
